@@ -18,8 +18,9 @@ From Onet Require Export Base.Corr Stats.Welford Stats.Buckets.
 Local Open Scope string_scope.
 Local Open Scope list_scope.
 
-(* which variant of the code the correspondence compares with; the integrator
-   flips a flag when the corresponding fix commit lands in /repo *)
+(* which variant of the code the correspondence compares with: all five repairs
+   are fix: commits of /repo, so every flag is true (a flag is false only while
+   its fix has not landed) *)
 Definition code_fixed_F21 := true.
 Definition code_fixed_F22 := true.
 Definition code_fixed_N1 := true.
